@@ -143,6 +143,9 @@ func crashAction(repo repository.ClockedRepo, job CrashJob) error {
 		if err := a0.Mutate(repo, func(m *identity.Mutator) { m.Name = "a0 renamed"; m.Email = "renamed@example.com" }); err != nil {
 			return err
 		}
+		if !a0.NeedCommit() {
+			return nil // the interrupted run had completed: repeating the same mutation changes nothing
+		}
 		return a0.Commit(repo)
 	case "merge-new", "merge-ff", "merge-diverged", "merge-all":
 		for res := range identity.MergeAll(repo, "origin") {
@@ -797,11 +800,15 @@ func runC06(tier, replay string) int {
 	c06TornClocks(r, preps[3].dir)
 
 	// tier 2: syscall-granularity kills under strace
-	if r.Thorough() || os.Getenv("VERIF_C06_STRACE") == "1" {
-		for _, p := range preps {
-			if p.broken == "" {
-				c06Strace(r, p.sc, p.dir, p.ids, p.P, p.Q)
-			}
+	// quick runs the syscall tier on the three smallest scenarios only (about 110 kill positions: inside clock,
+	// object and ref writes, which the API-call tier cannot reach)
+	quickStrace := map[string]bool{"create1": true, "newident": true, "mutident": true}
+	for _, p := range preps {
+		if p.broken != "" {
+			continue
+		}
+		if r.Thorough() || os.Getenv("VERIF_C06_STRACE") == "1" || quickStrace[p.sc.Name] {
+			c06Strace(r, p.sc, p.dir, p.ids, p.P, p.Q)
 		}
 	}
 	r.Extra("exhaustive", true)
